@@ -118,7 +118,10 @@ async fn start_servers(state: Arc<AppState>) -> Result<Servers, String> {
         let tcp = tokio::spawn(cascette_ribbit::tcp::start_server(local(tcp_port), state.clone()));
         let http = tokio::spawn(cascette_ribbit::http::start_server(local(http_port), state.clone()));
         let mut up = false;
-        for i in 0..5000 {
+        // a bound on time, not on polls: on a loaded machine the accept loops may need a while
+        let t0 = std::time::Instant::now();
+        let mut i = 0u32;
+        while t0.elapsed() < Duration::from_secs(20) {
             tokio::task::yield_now().await;
             if tcp.is_finished() || http.is_finished() {
                 break;
@@ -126,6 +129,10 @@ async fn start_servers(state: Arc<AppState>) -> Result<Servers, String> {
             if i >= 4 && can_connect(tcp_port).await && can_connect(http_port).await {
                 up = true;
                 break;
+            }
+            i += 1;
+            if i % 64 == 0 {
+                tokio::time::sleep(Duration::from_millis(2)).await;
             }
         }
         if up && !tcp.is_finished() && !http.is_finished() {
@@ -143,7 +150,7 @@ async fn start_servers(state: Arc<AppState>) -> Result<Servers, String> {
             }
         }
     }
-    Err(format!("servers could not be started on probed ports: {last}"))
+    Err(format!("servers could not be started on probed ports (40 attempts): {}", if last.is_empty() { "no attempt became connectable within 20 s" } else { &last }))
 }
 
 struct World {
